@@ -46,6 +46,7 @@ def check_C01(ctx, tier):
         if d.name == 'lru_cache':
             _sample_paths(ctx, d, paths, lambda o: o.kind == 'return' and any(e.kind == 'DEL' for e in o.st.events))
     S.rule_S_LOAD_DUMP(ctx, ctx.repo)      # load/dump copy values under the same key (used by the inductive argument)
+    K.rule_K_OWN(ctx, ctx.repo)            # the key of a call does not depend on earlier calls (no aliasing of module-level state)
     ctx.require_instances('W-KEY', 36, 'key uses')
     ctx.require_instances('W-ARGS', 12, 'evaluation sites')
     ctx.assume('an entry (k -> v) in memory or archive satisfies v = f(a) for K(a) = k at the start of the call (inductive hypothesis)')
@@ -160,6 +161,7 @@ def check_C18(ctx, tier):
 def check_C09(ctx, tier):
     K.rule_K_ORDER(ctx, ctx.repo)
     K.rule_K_DISPATCH(ctx, ctx.repo)
+    K.rule_K_OWN(ctx, ctx.repo)
     for d, paths in _wrappers(ctx, tier):
         W.setup_abbrev(d)
         W.rule_W_KEY(ctx, d, paths)
@@ -174,6 +176,7 @@ def check_C10(ctx, tier):
     K.rule_K_HASH(ctx, ctx.repo)
     K.rule_K_DISPATCH(ctx, ctx.repo)
     K.rule_K_FAST(ctx, ctx.repo)
+    K.rule_K_OWN(ctx, ctx.repo)
     ctx.assume('injectivity of repr/str/pickle of the argument values and fast-type unwrapping collisions are not decided')
     return ('Every positional argument and every (name, value) keyword item reaches the key whole on every path of keymap.encode/encrypt; '
             'typed keys append the types of all positional and all keyword values; a configured sentinel separates every two adjacent '
